@@ -11,6 +11,11 @@ def W(cfg, mode, names='ascii', b=1, frac=1.0, walks=0, length=0, split=False, l
                 max_events=max_events, lower_only=lower_only, ops=ops)
 
 
+def NM(names, seed, i):
+    """'rnd' = a seeded table of awkward component names, different for every run and seed"""
+    return 'rnd%d' % (seed * 1000 + i) if names == 'rnd' else names
+
+
 def group_runs(g, tier):
     q = tier == 'quick'
     if g == 'tree':
@@ -19,6 +24,8 @@ def group_runs(g, tier):
             W('mem', 'paths', frac=0.10 if q else 1.0, length=2),
             W('mem', 'random', walks=40 if q else 2000, length=40),
             W('mem', 'random', names='prefix', walks=20 if q else 500, length=40),
+            W('mem', 'random', names='rnd', walks=10 if q else 300, length=40), W('mem', 'random', names='rnd', lts='deep', walks=8 if q else 300, length=40),
+            W('phys', 'random', names='rnd', walks=6 if q else 200, length=40),
             W('mem', 'random', names='prefix2', walks=12 if q else 400, length=40), W('mem', 'random', lts='deep', names='prefix2', walks=8 if q else 300, length=40),
             W('mem', 'random', names='dotted', walks=20 if q else 500, length=40),
             W('mem', 'random', names='multi', b=3, walks=20 if q else 500, length=40),
@@ -45,7 +52,8 @@ def group_runs(g, tier):
             W('alt(zr/zs,phys)', 'random', names='dotted', walks=8 if q else 300, length=40),
             W('alt(/,mem)', 'random', walks=10 if q else 300, length=40),
             W('alt(zr/zs/zt,mem)', 'random', names='prefix', walks=10 if q else 300, length=40),
-            W('alt(zr,mem)', 'random', names='prefix2', walks=8 if q else 300, length=40),
+            W('alt(zr,mem)', 'random', names='prefix2', walks=8 if q else 300, length=40), W('alt(zr/zs,mem)', 'random', names='rnd', walks=8 if q else 300, length=40),
+            W('alt(zr,phys)', 'random', names='rnd', walks=5 if q else 200, length=40),
             W('alt(zr,alt(zs,mem))', 'random', names='multi', walks=10 if q else 300, length=40),
             W('alt(zr,ovl(mem,mem))', 'random', walks=10 if q else 300, length=40),
         ]
@@ -61,6 +69,7 @@ def group_runs(g, tier):
             W('ovl(mem,phys)', 'random', names='dotted', walks=6 if q else 300, length=40, split=True),
             W('ovl(alt(zu,mem),mem)', 'random', names='prefix', walks=8 if q else 300, length=40, split=True),
             W('ovl(mem,mem)', 'random', names='prefix2', walks=8 if q else 300, length=40, split=True),
+            W('ovl(mem,mem)', 'random', names='rnd', walks=8 if q else 300, length=40, split=True), W('ovl(phys,mem)', 'random', names='rnd', walks=5 if q else 200, length=40, split=True),
             W('ovl(ovl(mem,mem),mem)', 'random', names='multi', walks=8 if q else 300, length=40, split=True),
             W('ovl(mem,mem)', 'edges', lts='deep', frac=0.08 if q else 1.0, split=True),
             W('ovl(mem,mem,mem)', 'random', lts='deep', walks=15 if q else 1000, length=40, split=True),
@@ -114,7 +123,7 @@ def group_runs(g, tier):
         def H(cfg, names='ascii', b=1, walks=40, depth=1, nz=False):
             return dict(kind='handles', cfg=cfg, names=names, b=b, walks=walks, len=60, lower=False, depth=depth, extreme=True, inst='MC_Handles_q', tspec='Trace_Handles', no_zero_read=nz)
         return [
-            W('async:mem', 'edges', frac=0.04 if q else 1.0), W('async:mem', 'random', names='prefix', walks=15 * k, length=40), W('async:mem', 'random', names='prefix2', walks=10 * k, length=40),
+            W('async:mem', 'edges', frac=0.04 if q else 1.0), W('async:mem', 'random', names='prefix', walks=15 * k, length=40), W('async:mem', 'random', names='prefix2', walks=10 * k, length=40), W('async:mem', 'random', names='rnd', walks=8 * k, length=40),
             W('async:phys', 'edges', frac=0.015 if q else 0.5), W('async:phys', 'random', names='multi', b=8193, walks=6 * k, length=30),
             W('async:alt(zr,mem)', 'random', names='dotted', walks=12 * k, length=40), W('async:alt(zr/zs,phys)', 'random', walks=6 * k, length=30),
             W('async:ovl(mem,mem)', 'edges', frac=0.02 if q else 0.5), W('async:ovl(mem,mem)', 'random', walks=15 * k, length=40, lts='deep'),
@@ -212,7 +221,7 @@ def run_group(g, tier, seed, use_cache=True):
                     raise ToolError('model checking of %s failed:\n%s' % (mod, mc.get('tail', '')))
                 mcs[inst] = mc
                 ltsfiles[inst] = ensure_lts(mod, cfg + '_emit')
-            args = ['walk', '--lts', ltsfiles[r['lts']], '--cfg', r['cfg'], '--mode', r['mode'], '--names', r['names'], '--b', r['b'],
+            args = ['walk', '--lts', ltsfiles[r['lts']], '--cfg', r['cfg'], '--mode', r['mode'], '--names', NM(r['names'], seed, i), '--b', r['b'],
                     '--frac', r['frac'], '--seed', seed * 1000 + i, '--out', out, '--threads', 8, '--walks', r['walks'], '--len', r['len'],
                     '--max-events', r['max_events']]
             if r['split']:
@@ -230,7 +239,7 @@ def run_group(g, tier, seed, use_cache=True):
                 raise ToolError('model checking of %s failed:\n%s' % (r['inst'], mc.get('tail', '')))
             mcs[r['inst']] = mc
             hl = ensure_lts(r['inst'], r['inst'] + '_emit', tags=('EDGE', 'STATE'))
-            args = ['handles', '--lts', hl, '--cfg', r['cfg'], '--names', r['names'], '--b', r['b'], '--seed', seed * 1000 + i, '--walks', r['walks'],
+            args = ['handles', '--lts', hl, '--cfg', r['cfg'], '--names', NM(r['names'], seed, i), '--b', r['b'], '--seed', seed * 1000 + i, '--walks', r['walks'],
                     '--len', r['len'], '--out', out, '--depth', r['depth']]
             if r['lower']:
                 args.append('--lower-file')
@@ -245,7 +254,7 @@ def run_group(g, tier, seed, use_cache=True):
                 raise ToolError('model checking of %s failed:\n%s' % (r['inst'], mc.get('tail', '')))
             mcs[r['inst']] = mc
             l2 = ensure_lts(r['inst'], r['inst'] + '_emit')
-            s = harness(['tree2', '--lts', l2, '--cfg1', r['cfg1'], '--cfg2', r['cfg2'], '--names', r['names'], '--b', r['b'], '--frac', r['frac'],
+            s = harness(['tree2', '--lts', l2, '--cfg1', r['cfg1'], '--cfg2', r['cfg2'], '--names', NM(r['names'], seed, i), '--b', r['b'], '--frac', r['frac'],
                          '--seed', seed * 1000 + i, '--out', out])
         elif r['kind'] == 'awalk':
             mc = run_mc('MC_WalkAsync', 'MC_WalkAsync')
@@ -285,7 +294,7 @@ def run_group(g, tier, seed, use_cache=True):
                     raise ToolError('model checking of %s failed:\n%s' % (mod, mc.get('tail', '')))
                 mcs[inst] = mc
                 ltsfiles[inst] = ensure_lts(mod, cfg + '_emit')
-            args = ['faults', '--lts', ltsfiles[inst], '--cfg', r['cfg'], '--names', r['names'], '--pairs', r['pairs'], '--seed', seed * 1000 + i, '--out', out]
+            args = ['faults', '--lts', ltsfiles[inst], '--cfg', r['cfg'], '--names', NM(r['names'], seed, i), '--pairs', r['pairs'], '--seed', seed * 1000 + i, '--out', out]
             if r['split']:
                 args.append('--split')
             s = harness(args)
